@@ -30,6 +30,8 @@ func runC06(c *Check) {
 	c06RunAfterClose(c, P, r)
 	c06ClosesPubSub(c, P, r)
 	c06NotBypassed(c, P, r)
+	// the subscriber decorator the Router puts in front of every handler takes part in the shutdown: its Close must end its pumps
+	c07Decorator(c, P+".S")
 	c02Dispatch(c, P, r.RouterRoles)
 }
 
